@@ -25,10 +25,12 @@ import (
 	"hash/fnv"
 	"math/big"
 	"os"
+	"reflect"
 	"runtime/pprof"
 	"sort"
 	"strings"
 	"unicode/utf8"
+	"unsafe"
 
 	"github.com/wader/fq/internal/verif/core"
 	"github.com/wader/fq/internal/verif/fqrun"
@@ -60,6 +62,9 @@ type tree struct {
 	mutable   bool
 	wantCanon string
 	snaps     []snap
+	maps      map[uintptr]bool
+	slices    [][2]uintptr
+	holds     map[*decode.Value]bool // nodes below which a scalar holds a Go container
 }
 
 type snap struct {
@@ -144,30 +149,103 @@ func sameContainerKind(a, b any) bool {
 
 // seal records the pristine state of t (call right after decoding).
 func (t *tree) seal() {
-	var walk func(dv *decode.Value)
-	walk = func(dv *decode.Value) {
+	t.holds = map[*decode.Value]bool{}
+	var walk func(dv *decode.Value) bool
+	walk = func(dv *decode.Value) bool {
+		h := false
 		switch vv := dv.V.(type) {
 		case *decode.Compound:
 			for _, c := range vv.Children {
-				walk(c)
+				if walk(c) {
+					h = true
+				}
 			}
 		case scalar.Scalarable:
 			for _, x := range []any{vv.ScalarActual(), vv.ScalarSym()} {
 				if isContainer(x) {
+					h = true
 					t.mutable = true
 					t.snaps = append(t.snaps, snap{cur: x, pristine: deepCopy(x)})
 				}
 			}
 		}
+		if h {
+			t.holds[dv] = true
+		}
+		return h
 	}
 	walk(t.dv)
+	t.own()
 	t.wantCanon = canon(refOf(t.dv), cmode{})
+}
+
+// own: every map (by pointer) and slice (by backing range) below the snaps.
+func (t *tree) own() {
+	t.maps = map[uintptr]bool{}
+	t.slices = t.slices[:0]
+	var walk func(v any)
+	walk = func(v any) {
+		switch v := v.(type) {
+		case map[string]any:
+			t.maps[reflect.ValueOf(v).Pointer()] = true
+			for _, e := range v {
+				walk(e)
+			}
+		case []any:
+			if cap(v) > 0 {
+				p := reflect.ValueOf(v[:cap(v)]).Pointer()
+				t.slices = append(t.slices, [2]uintptr{p, p + uintptr(cap(v))*unsafe.Sizeof(v[:1][0])})
+			}
+			for _, e := range v {
+				walk(e)
+			}
+		}
+	}
+	for _, s := range t.snaps {
+		walk(s.cur)
+	}
+}
+
+// reaches: v holds (or is a view of) a container owned by t, or a decode value
+// below which a scalar holds one.
+func (t *tree) reaches(v any) bool {
+	switch v := v.(type) {
+	case interp.DecodeValue:
+		return t.holds[v.DecodeValue()]
+	case gojq.JQValue:
+		return true // gojqx.Array/Object and other wrappers around Go containers
+	case map[string]any:
+		if t.maps[reflect.ValueOf(v).Pointer()] {
+			return true
+		}
+		for _, e := range v {
+			if t.reaches(e) {
+				return true
+			}
+		}
+	case []any:
+		if cap(v) > 0 {
+			p := reflect.ValueOf(v[:cap(v)]).Pointer()
+			for _, r := range t.slices {
+				if p >= r[0] && p < r[1] {
+					return true
+				}
+			}
+		}
+		for _, e := range v {
+			if t.reaches(e) {
+				return true
+			}
+		}
+	}
+	return false
 }
 
 func (t *tree) restore() {
 	for _, s := range t.snaps {
 		restoreInPlace(s.cur, s.pristine)
 	}
+	t.own()
 }
 
 // value is one node of a tree.
@@ -337,6 +415,7 @@ type item struct {
 	unsorted bool
 	badUTF   bool
 	isDV     bool
+	risky    bool // lhs can reach a Go map/slice owned by a decoded tree
 	rhsType  string
 	rhsHash  uint64
 }
@@ -439,6 +518,7 @@ func newItem(lhs, rhs any, origin *value, chain []string, level int, unsorted bo
 	_, it.isDV = lhs.(interp.DecodeValue)
 	it.rhsType = jsonType(rhs)
 	it.rhsHash = hashStr(canon(rhs, cmode{}))
+	it.risky = origin.t.mutable && origin.t.reaches(lhs)
 	return it
 }
 
@@ -602,25 +682,45 @@ func (e *engine) apply(items []*item, qs []qnode, full bool) (next []*item) {
 			}
 			e.judgeChunk(ev, &next)
 			for _, q := range isolated {
-				// optimistic: the whole chunk at once; item by item only when that
-				// panics or changes a tree
-				ev := e.evalChunk(part, []qnode{q}, full)
-				if ev.pe == nil && e.mutated(part) == nil {
-					e.judgeChunk(ev, &next)
-					continue
-				}
-				e.repair(part)
+				// items whose lhs can reach a Go container owned by a tree are evaluated
+				// one at a time (judged before the tree is verified and repaired: outputs
+				// may alias the container); the others in one batch
+				var batch []*item
 				for i := range part {
+					if !part[i].risky {
+						batch = append(batch, part[i])
+						continue
+					}
 					one := e.evalChunk(part[i:i+1], []qnode{q}, full)
 					if one.pe != nil {
 						e.panicViolation(part[i], q, one.pe)
 						continue
 					}
-					// judge first: an output may alias the container that repair resets
 					e.judgeChunk(one, &next)
 					if t := e.mutated(part[i : i+1]); t != nil {
 						e.mutationViolation(part[i], q, t)
 						e.repair(part[i : i+1])
+					}
+				}
+				if len(batch) == 0 {
+					continue
+				}
+				ev := e.evalChunk(batch, []qnode{q}, full)
+				if ev.pe == nil && e.mutated(batch) == nil {
+					e.judgeChunk(ev, &next)
+					continue
+				}
+				e.repair(batch)
+				for i := range batch {
+					one := e.evalChunk(batch[i:i+1], []qnode{q}, full)
+					if one.pe != nil {
+						e.panicViolation(batch[i], q, one.pe)
+						continue
+					}
+					e.judgeChunk(one, &next)
+					if t := e.mutated(batch[i : i+1]); t != nil {
+						e.mutationViolation(batch[i], q, t)
+						e.repair(batch[i : i+1])
 					}
 				}
 			}
@@ -898,7 +998,7 @@ func (e *engine) judge(it *item, q qnode, par any, l, r res) (next []*item) {
 	if it.level >= e.maxLevel {
 		return nil
 	}
-	if q.par != "" && !e.followAll && !inReduced(it, q, par) {
+	if q.par != "" && !(e.followAll && it.level == 1) && !inReduced(it, q, par) {
 		e.r.Count("outputs_not_followed_parameter_outside_reduced_pool", int64(len(lorder)))
 		return nil
 	}
@@ -1270,7 +1370,7 @@ func (e *engine) queries(vals []*value) {
 		next := e.apply(layer, e.fam, true)
 		for lvl := 2; lvl <= e.maxLevel && len(next) > 0; lvl++ {
 			e.r.Count(fmt.Sprintf("layer%d_items", lvl), int64(len(next)))
-			next = e.apply(next, e.core, e.r.Thorough() && lvl == 2)
+			next = e.apply(next, e.core, false)
 		}
 	}
 	if !e.r.Expired() {
